@@ -358,6 +358,23 @@ func run(c *mon.Ctx) {
 			p.Streams[k], p.Streams[j] = p.Streams[j], p.Streams[k]
 		}
 		pay := append([]byte{0}, p.Section()...)
+		if i%4 == 1 {
+			// right after a PMT that is rejected in the middle of a descriptor loop (a descriptor_length running
+			// past the section, behind descriptors that were fine): nothing of it shows in the next PMT
+			bad := ref.PMT{Program: 2, CurrentNext: true, PCRPID: 0x1fff}
+			for k := 0; k < 1+r.Intn(3); k++ {
+				v := uint32(r.Intn(1 << 21))
+				bad.Streams = append(bad.Streams, ref.ES{Type: 0x1b, PID: 0x400 + k, Descs: []ref.Desc{{Tag: 0x0e, Body: []byte{0xc0 | byte(v>>16), byte(v >> 8), byte(v)}}, {Tag: 0x0a, Body: []byte("xyz\x01")}, {Tag: 0x05, Body: r.Bytes(2 + r.Intn(6))}}})
+			}
+			bs := bad.Section()
+			// the last descriptor of the last stream announces 0xF0 bytes
+			if at := len(bs) - 4 - len(bad.Streams[len(bad.Streams)-1].Descs[2].Body) - 1; at > 0 {
+				bs[at] = 0xf0
+			}
+			if _, berr := psi.NewPMT(append([]byte{0}, bs...)); berr != nil {
+				c.Count("pmt.decoded_after_a_rejected_pmt")
+			}
+		}
 		m, err := psi.NewPMT(pay)
 		c.Eval(1)
 		if err != nil || len(m.ElementaryStreams()) != n {
